@@ -1,5 +1,6 @@
 #!/usr/bin/env python3
-# usage: run.py <repo> <seed> <n> [tier] [opsfile]
+# usage: run.py <repo> <seed> <n> [tier] [opsfile]          (stream walker.parse)
+#        WALKER_STREAM=print run.py <repo> <seed> <n> …      (stream walker.print: output in /tmp/walker-go-t/print-<seed>)
 #   builds walkerh from <repo> (overlay, tag verif), runs one shard (Go side only) into
 #   /tmp/walker-go-t/<seed> and prints the summary: evaluations, oracle failure signatures,
 #   outcome / generator / error-class counters. With [opsfile] the ops are read from that file
@@ -15,7 +16,8 @@ from vlib import engine
 out, log, dt = engine.build_harness('walkerh')
 if out is None:
     print(log); sys.exit(1)
-d = '/tmp/walker-go-t/%s' % seed
+stream = os.environ.get('WALKER_STREAM', '')
+d = '/tmp/walker-go-t/%s%s' % (stream + '-' if stream else '', seed)
 shutil.rmtree(d, ignore_errors=True)
 cmd = [out, '-seed', seed, '-n', n, '-tier', tier, '-out', d, '-flush']
 if opsfile:
